@@ -342,6 +342,42 @@ Definition view_matches (S fs : schema) (p : operm) : bool :=
     | _, _ => false
     end) (s_kinds S).
 
+(* response paths of the fields of an operation, with what is selected there: the same path with two different fields can
+   only arise under two different type conditions (known finding KF-key-clash-across-types) *)
+Fixpoint keyed (s : sel) {struct s} : list (list string * (string * list (string * value))) :=
+  match s with
+  | SField al n args _ _ oss => ([al], (n, args)) :: match oss with
+                                                     | Some ss => map (fun e => (al :: fst e, snd e)) (flat_map keyed ss)
+                                                     | None => [] end
+  | SInline _ _ _ ss | SSpread _ _ _ _ ss => flat_map keyed ss
+  end.
+Definition key_clash (l : list (list string * (string * list (string * value)))) : bool :=
+  existsb (fun a => existsb (fun b => list_eqb String.eqb (fst a) (fst b) &&
+                                      negb (String.eqb (fst (snd a)) (fst (snd b)) && args_eqb (snd (snd a)) (snd (snd b)))) l) l.
+
+(* the entities (type name, id) a reply names through the gateway's plumbing aliases *)
+Fixpoint json_entities (j : json) {struct j} : list (string * string) :=
+  match j with
+  | JObj kvs =>
+      (match lookup "_bramble__typename" kvs, lookup "_bramble_id" kvs with
+       | Some (JStr t), Some (JStr i) => [(t, i)]
+       | Some (JStr t), Some (JNum i) => [(t, i)]
+       | _, _ => [] end) ++
+      (fix go (l : list (string * json)) : list (string * string) := match l with [] => [] | kv :: t => json_entities (snd kv) ++ go t end) kvs
+  | JArr l => (fix go (l : list json) : list (string * string) := match l with [] => [] | x :: t => json_entities x ++ go t end) l
+  | _ => []
+  end.
+(* C04: "looks entities up only by ids that an earlier response returned for that type" *)
+Fixpoint ids_from_earlier (seen : list (string * string)) (rs : list obs_request) : bool :=
+  match rs with
+  | [] => true
+  | r :: t =>
+      (if or_is_lookup r
+       then forallb (fun i => existsb (fun p => String.eqb (fst p) (or_parent r) && String.eqb (snd p) i) seen) (or_ids r)
+       else true) &&
+      ids_from_earlier (seen ++ match or_reply_data r with Some j => json_entities j | None => [] end) t
+  end.
+
 Definition root_of (c : e2e_case) : string := match o_kind (ec_op c) with OMutation => "Mutation" | _ => "Query" end.
 
 Definition check_e2e_case (c : e2e_case) : list (string * bool) :=
@@ -491,6 +527,7 @@ Definition check_e2e_case (c : e2e_case) : list (string * bool) :=
     ("prop.c04.only_surviving_fields",
        let inc := flat_map (included_names (ec_vars c)) (o_sel (ec_op c)) in
        forallb (fun r => forallb (fun n => mem n inc) (flat_map requested_names (or_sel r))) (obs_requests c));
+    ("prop.c04.ids_from_earlier_responses", ids_from_earlier [] (obs_requests c));
     ("prop.c04.ids_nodup", forallb (fun r => Nat.eqb (List.length (dedupe_str (or_ids r))) (List.length (or_ids r))) (obs_requests c));
     (* --- guards (true = the recorded defect's trigger did NOT fire) --- *)
     ("guard.nested_fragment_dup", negb (op_any_scope scope_has_nested_dup client_ss));
@@ -501,6 +538,7 @@ Definition check_e2e_case (c : e2e_case) : list (string * bool) :=
     ("guard.namespace_under_fault", nofault || negb (existsb (fun s => match s with
                                                    | SField _ n _ _ t (Some _) => match lookup (root_of c +++ "." +++ n) (g_locations (ec_gen c)) with None => true | Some _ => false end
                                                    | _ => false end) (flat_map flat_fields client_ss)));
+    ("guard.no_key_clash_across_types", negb (key_clash (flat_map keyed client_ss)));
     ("guard.view_has_types",
        let named := match ec_perm c with
                     | Some p => explicit_reach S (match o_kind (ec_op c) with OMutation => p_mutation p | _ => p_query p end) (root_of c)
